@@ -2,6 +2,7 @@
   Oracle for C04 (model store).  STATEFUL: the oracle carries the model store of the current history.
 
     reset                                                   -> ok          (empty store)
+    variant <fixAlias 0|1> <fixResolve 0|1> <fixReturn 0|1> -> ok          (what the driver's probes found)
     meta <contenthex> <archhex> <mtypehex> <ftypehex>       -> ok          (GGUF metadata the real decoder reported)
     upload <c|d> <hex> <contenthex> ## <obs>
     create <name4> from <name4> | files <k> {<c|d> <hex>}*   then
@@ -11,6 +12,7 @@
     prune ## <obs>
     plant <name4> <name4> ## <obs>        (not an API op: legacy / un-canonicalised manifest)
     corrupt <name4> ## <obs>              (not an API op: torn manifest)
+    dashify <name4> ## <obs>              (not an API op: model-layer digests respelled sha256-<hex>)
     show <name4> ## <status>              (does not change the state)
 
   `<name4>` = host ns model tag.  `<obs>` is the canonical observation of result + store the driver made on
@@ -93,22 +95,27 @@ def obs (res : List String) (st : Store) : String :=
 structure OState where
   st : Store
   metas : List (String × Meta)
+  v : Variant
 
 def sha (c : Bytes) : String := hexOf (Sha256.sha256 c)
 
-def envOf (metas : List (String × Meta)) : Env :=
-  { hash := sha, gguf := fun c => aget metas (sha c) }
+def envOf (metas : List (String × Meta)) (v : Variant) : Env :=
+  { hash := sha, gguf := fun c => aget metas (sha c), v := v }
+
+/-- all results of `getExistingName` (one, when the repaired version is under test) -/
+def resolveAll (env : Env) (st : Store) (n : Name) : List Name :=
+  if env.v.fixResolve then [getExistingNameFixed st.readableNames n] else resolutions st.readableNames n
 
 /-- all outcomes of a state-changing operation -/
 def outcomes (env : Env) (st : Store) : Op → List (Store × List String)
   | .create r =>
-    let names := resolutions st.readableNames r.name
+    let names := resolveAll env st r.name
     let frevs := if r.src.isNone && r.files.length ≥ 2 then [false, true] else [false]
     names.flatMap (fun nm => frevs.map (fun fr => createAt env st r nm fr))
   | .copy s d =>
-    (resolutions st.readableNames s).flatMap (fun s' =>
-      (resolutions st.readableNames d).map (fun d' => copyAt st s' d'))
-  | .delete n => (resolutions st.readableNames n).map (fun t => deleteAt st t)
+    (resolveAll env st s).flatMap (fun s' =>
+      (resolveAll env st d).map (fun d' => copyAt st s' d'))
+  | .delete n => (resolveAll env st n).map (fun t => deleteAt env st t)
   | op => [step env st op ⟨[], [], false⟩]
 
 def pOp : TP Op := do
@@ -136,6 +143,9 @@ def pOp : TP Op := do
   | "corrupt" => do
     let n ← pName
     pure (.corrupt n)
+  | "dashify" => do
+    let n ← pName
+    pure (.dashify n)
   | _ => failure
 
 def splitObs (toks : List String) : List String × String :=
@@ -146,6 +156,7 @@ def splitObs (toks : List String) : List String × String :=
 def handle (s : OState) (toks : List String) : OState × String :=
   match toks with
   | ["reset"] => ({ s with st := Store.empty }, "ok")
+  | ["variant", a, b, c] => ({ s with v := ⟨a == "1", b == "1", c == "1"⟩ }, "ok")
   | "meta" :: rest =>
     match runTP (do
       let c ← hex
@@ -159,15 +170,15 @@ def handle (s : OState) (toks : List String) : OState × String :=
     let (a, o) := splitObs rest
     match runTP pName a with
     | some n =>
-      let env := envOf s.metas
-      let outs := ((resolutions s.st.readableNames n).map (fun t => showAt env s.st t)).eraseDups
+      let env := envOf s.metas s.v
+      let outs := ((resolveAll env s.st n).map (fun t => showAt env s.st t)).eraseDups
       if outs.contains o then (s, o) else (s, outs.headD "none")
     | none => (s, "bad-op")
   | _ =>
     let (a, o) := splitObs toks
     match runTP pOp a with
     | some op =>
-      let env := envOf s.metas
+      let env := envOf s.metas s.v
       let outs := outcomes env s.st op
       match outs.find? (fun (st', res) => obs res st' == o) with
       | some (st', _) => ({ s with st := st' }, o)
@@ -190,4 +201,4 @@ end Oracle.C04
 def main (_ : List String) : IO Unit := do
   let stdin ← IO.getStdin
   let stdout ← IO.getStdout
-  Oracle.C04.loop stdin stdout ⟨OllamaVerif.Store.Store.empty, []⟩
+  Oracle.C04.loop stdin stdout ⟨OllamaVerif.Store.Store.empty, [], OllamaVerif.Store.Variant.pinned⟩
